@@ -22,7 +22,7 @@ TECHNIQUE = ("runtime monitoring: the real discovery functions are run on genera
 RULE = ("seeded datasets (1-4 parameter dims of size 1-4 named a-d or like keyword options of xarray (tolerance, drop, method), numeric and str coordinates, 1-3 variables on subsets of the "
         "dims with or without an internal dim, null patterns whole-cell / partial-cell / per-variable / none / all, inf "
         "values) x both null criteria x ignore_dims spellings (None, str, list, set) x Dataset/DataArray inputs; "
-        "parse_into_cases with combos/cases incl. absent coordinates and partial locations; complex-valued variables with infinities / NaNs in either part; find->harvest->find loops; "
+        "parse_into_cases with combos/cases incl. absent coordinates and partial locations; complex-valued variables with infinities / NaNs in either part; datasets of 2*10**5 and more numbers; searches repeated on the same object after its holes were filled in place; find->harvest->find loops; "
         "distinct by dataset spec; non-trivial when at least one location is missing and one is not")
 ASSUMPTIONS = [
     "grid order = itertools.product order over the returned argument names, each in the dataset's coordinate order",
